@@ -54,6 +54,12 @@ def run(ctx):
              "and name at both ends of a section", floor=5)
     run.rule("C01.R6", "every datatype-slot call in matcher.py / info.py is "
              "wrapped: ValueError -> DataConversionError", floor=4)
+    run.rule("C01.R8", "'the schema' of the statement: a schema loader "
+             "returns the schema parsed from the resource it was given (a "
+             "cache hit only under that resource's own, non-empty URL), and "
+             "the default key type under which keys are declared and matched "
+             "accepts exactly the documented basic-key language (borrowed "
+             "from C13.R4 / C09.R1)", floor=3)
 
     SI = INF + ".SectionInfo"
     crosscheck(ctx, "C01.R1", SI + ".isAllowedName", REF, "isAllowedName", SI,
@@ -174,6 +180,16 @@ def run(ctx):
     crosscheck(ctx, "C01.R7", BPq + ".get_sect_typeinfo", "ref_schema.py",
                "get_sect_typeinfo", BPq,
                "key type of a section type: own > base > basic-key")
+    # R8: conformance is judged against the schema the caller loaded, and
+    # keys are normalised by the key type the schema declares -- basic-key
+    # where it declares none
+    crosscheck(ctx, "C01.R8", "ZConfig.loader.SchemaLoader.loadResource",
+               "ref_info.py", "schemaloader_loadResource",
+               "ZConfig.loader.SchemaLoader",
+               "the schema parsed from this resource; cached under its own "
+               "non-empty URL only")
+    from rules import c09
+    c09.pattern_rule(ctx, "C01.R8", only={"basic-key"})
     PCq = "ZConfig.cfgparser.ZConfigParser"
     for live, ref, what in (
             ("start_section", "start_section", "type and name are "
